@@ -32,8 +32,24 @@ rate_st = st.one_of(st.sampled_from(RATES), st.floats(0.1, 10.0, allow_nan=False
 
 
 @st.composite
+def _generic_set(draw, tier):
+    """A plain reamber.base.MapSet holding 1..3 charts of one game (osu, Quaver or BMS have no set class of their own)."""
+    g = draw(st.sampled_from(["osu", "osu", "qua", "bms"]))
+    keys = draw(st.sampled_from(B.KEYS[g]))
+    return dict(game=g, generic=True, keys=keys, maps=[draw(B.st_chart(g, tier, keys=keys)) for _ in range(draw(st.integers(1, 3)))], meta={})
+
+
+def _build(chart):
+    if chart.get("generic"):
+        from reamber.base.MapSet import MapSet
+
+        return MapSet([B.build(c) for c in chart["maps"]])
+    return B.build(chart)
+
+
+@st.composite
 def case_st(draw, tier):
-    c = draw(B.st_any_container(tier))
+    c = draw(st.one_of(B.st_any_container(tier), B.st_any_container(tier), B.st_any_container(tier), _generic_set(tier)))
     r = draw(rate_st)
     r2 = draw(rate_st)
     return dict(chart=c, r=r, r2=r2)
@@ -128,10 +144,11 @@ def _stats(chart):
 
 def check_model(case, ctx):
     chart, r, r2 = case["chart"], case["r"], case["r2"]
-    obj = B.build(chart)
+    obj = _build(chart)
     before_strict = B.snapshot(obj)
     before = B.content(obj)
     holds, bpms, empty = _stats(chart)
+    ctx.label("generic-MapSet-of-" + chart["game"], bool(chart.get("generic")))
     ctx.nt(r != 1.0 and holds >= 1 and bpms >= 2)
     ctx.label("game=" + chart["game"])
     ctx.label("has-empty-list", empty)
